@@ -219,7 +219,9 @@ func (e *exporter) value(n adt.Value, a ...adt.Conjunct) (result ast.Expr) {
 
 		result = b.expr(e.ctx)
 		if result == nil {
-			a = x.Values
+			// Sort a copy: x may be part of a value that is shared with
+			// other goroutines.
+			a = slices.Clone(x.Values)
 		}
 
 		slices.SortStableFunc(a, cmpLeafNodes)
